@@ -15,7 +15,7 @@ def run(ctx):
                 "is non-constant; distinct by content hash. impl_probe: the property's identity evaluated directly on the real code")
     ctx.prove("C05")
     from suites import symsuite
-    run_suites(ctx, ["symbolic"], runner=symsuite.run_suite, relevant=symsuite.relevant_for(['diffusion', 'central', 'divergence', 'gradient', 'linmean', 'upwind']))
+    run_suites(ctx, ["symbolic"], runner=symsuite.run_suite, relevant=symsuite.relevant_for(['diffusion', 'central', 'divergence', 'gradient', 'linmean', 'upwind', 'upwmean']))
     run_suites(ctx, SUITES, relevant=REL)
     try:
         n = probes.probe_c05(ctx, pf)
